@@ -19,6 +19,13 @@ structure ManyCodec.Lawful (c : ManyCodec) : Prop where
   len_ne_one : ∀ vs, 2 ≤ vs.length → (c.enc vs).length ≠ 1
   len_ne_eight : ∀ vs, 2 ≤ vs.length → (c.enc vs).length ≠ 8
 
+/-- the canonical `Datasets` value of a set of ids given as any list -/
+def Datasets.ofList (l : List Nat) : Datasets :=
+  match insertAll [] l with
+  | [] => Datasets.empty
+  | [v] => Datasets.unique v
+  | vs => Datasets.many vs
+
 /-- a collection: dataset `d` is the `d`-th hash list -/
 abbrev Coll := List (List Nat)
 
